@@ -159,12 +159,99 @@ def build_file(rng, ctx):
                                                                                  sizes=[c['size'] for c in chans], tif=tif, maxpay=maxpay))
 
 
+def index_replay(ctx, rng):
+    """LisIndex.tla: TLC checks the indexer design against the abstract answer for every valid record sequence in the bound and
+    writes the table of sequences; every row is rendered as a real file (random physical layout) and indexed by the real
+    FileIndex: listed records at their true positions in order, log passes with true frame counts and first X."""
+    import io
+    import json
+    import os
+    from TotalDepth.LIS.core import File, FileIndexer
+    cc = dict(MaxLen=ctx.pick('3', '4'), MaxFrames='2')
+    ctx.tlc_check('MC_LisIndex', 'LisIndex', cfg_consts=cc, invariants=['ListedOK', 'PassesOK', 'NoDataLost'], need_actions=['Step'], timeout=3000)
+    ft = os.path.join(ctx.wdir('lisindex'), 'rows.json')
+    ctx.tlc_check('MC_LisIndexTable', 'LisIndexTable', cfg_consts=cc, env={'OUT_TABLE': ft}, workers=1, coverage=False, timeout=3000)
+    rows = json.load(open(ft))
+    TYPE = {'FH': 128, 'FT': 129, 'TH': 130, 'TT': 131, 'RH': 132, 'RT': 133, 'TAB': 34, 'MISC': 232, 'MARK': 137, 'UNK': 7}
+    MAKE = {'FH': GLL.file_head, 'FT': GLL.file_tail, 'TH': GLL.tape_head, 'TT': GLL.tape_tail, 'RH': GLL.reel_head, 'RT': GLL.reel_tail}
+    nrow = 0
+    for row in rows:
+        nrow += 1
+        if ctx.quick and nrow % 2 and len(row['passes']) == 0:
+            continue
+        recs = row['file']
+        lrs = []
+        passx = {}            # data type -> [next x, dx] of the DFSR in force
+        first_x = {}          # position (1-based) of a data record -> X of its first frame
+        for pos, r in enumerate(recs, 1):
+            k = r['k']
+            if k in MAKE:
+                lrs.append(MAKE[k]())
+                if k in ('FH', 'FT', 'TH', 'TT', 'RH', 'RT'):
+                    passx = {}
+            elif k == 'TAB':
+                lrs.append(bytes([34, 0]) + b'IA\x04\x00TYPE    ' + rng.choice([b'CONS', b'TOOL', b'OUTP']) + b'\x00A\x04\x00MNEM    BS  ')
+            elif k in ('MISC', 'MARK', 'UNK'):
+                lrs.append(GLL.misc(TYPE[k], b'' if k == 'MARK' else b'operator text'))
+            elif k in ('DFSR0', 'DFSR1'):
+                t = 0 if k == 'DFSR0' else 1
+                up = rng.random() < 0.5
+                chans = [dict(mnem=b'DEPT', units=b'FEET', size=4, samples=1, rc=68, nvals=1), dict(mnem=b'CH01', units=b'    ', size=4, samples=1, rc=68, nvals=1)]
+                lrs.append(GLL.dfsr({4: (1, 66, 1 if up else 255), 12: (4, 68, -999.25)}, chans, iflr_type=t))
+                passx[t] = [float(rng.choice([1000, 5000, 250]) + 100 * pos), -0.5 if up else 0.5]
+            else:
+                t = 0 if k == 'DATA0' else 1
+                frames = []
+                first_x[pos] = passx[t][0]
+                for _ in range(r['f']):
+                    frames.append(RC.enc68(passx[t][0]) + RC.enc68(float(rng.randint(-1000, 1000))))
+                    passx[t][0] += passx[t][1]
+                lrs.append(GLL.data_record(t, b'', frames))
+        maxpay = rng.choice([16, 60, 1020])
+        tif = rng.choice(['none', 'le'])
+        splits = [GL.random_split(rng, len(x), maxpay) for x in lrs]
+        data, starts = GL.render(lrs, GL.layout_from_splits(splits, rng, rng.choice([(0, 0, 0), (1, 1, 0)])), tif)
+        case = dict(records=[(r['k'], r['f']) for r in recs], tif=tif, maxpay=maxpay)
+        ctx.case(('index', nrow), len(row['passes']) > 0)
+        try:
+            f = File.FileRead(io.BytesIO(data), 'verif', keepGoing=False)
+            idx = FileIndexer.FileIndex(f)
+        except Exception as e:
+            ctx.fail('indexing the record sequence %s raised %s: %s' % (case['records'], type(e).__name__, e), case, sig=dict(kind='index-seq-exception'))
+            continue
+        got = [(e.tell, e.lrType) for e in idx._idx]
+        want_listed = [(starts[p - 1], TYPE[recs[p - 1]['k']]) for p in row['listed']]
+        got_listed = [g for g in got if g[1] in (128, 129, 130, 131, 132, 133, 34)]
+        bad = None
+        if got_listed != want_listed:
+            bad = 'headers/trailers/tables listed as %r, the file has %r' % (got_listed, want_listed)
+        elif [g[0] for g in got] != sorted(g[0] for g in got):
+            bad = 'index entries are not in file order: %r' % (got,)
+        else:
+            lps = [e for e in idx._idx if isinstance(e, FileIndexer.IndexLogPass)]
+            if [e.tell for e in lps] != [starts[p['pos'] - 1] for p in row['passes']]:
+                bad = 'log passes found at %r, DFSR records are at %r' % ([e.tell for e in lps], [starts[p['pos'] - 1] for p in row['passes']])
+            else:
+                for e, p in zip(lps, row['passes']):
+                    lp = e.logPass
+                    if lp.totalFrames != p['frames']:
+                        bad = 'log pass at record %d: %d frames indexed, %d recorded' % (p['pos'], lp.totalFrames, p['frames'])
+                        break
+                    if p['frames'] and float(lp.xAxisFirstVal) != first_x[p['first']]:
+                        bad = 'log pass at record %d: first X %r, recorded %r' % (p['pos'], lp.xAxisFirstVal, first_x[p['first']])
+                        break
+        if bad:
+            ctx.fail('LIS index of the record sequence %s: %s' % (case['records'], bad), case, sig=dict(kind='index-seq'))
+    ctx.notes['index_sequences_replayed'] = nrow
+
+
 def run(ctx):
     repo.setup()
     from ..core import quiet_logging
     quiet_logging()
     from TotalDepth.LIS.core import File, FileIndexer, LogPass
     rng = ctx.subrng('c06')
+    index_replay(ctx, ctx.subrng('c06-index'))
     ctx.tlc_check('MC_LisFrames', 'LisFrames', consts={'Cases': frozenset(design_cases())},
                   invariants=['CellsSound', 'XSound', 'CursorInside', 'OnlyVisited', 'CompleteIsRight'], timeout=900)
     rv = ctx.tlc_check('MC_LisFrames_reach', 'LisFrames', consts={'Cases': frozenset(design_cases()[:1])}, invariants=['NeverComplete'],
